@@ -464,3 +464,27 @@ func (e *Eng) verifyLemma(lm *Lemma) *Run {
 	}
 	return r
 }
+
+// localVarType finds the type of a local variable of fn by name (from the type checker's definitions).
+func (e *Eng) localVarType(fn *ssa.Function, name string) types.Type {
+	syn := fn.Syntax()
+	if syn == nil || fn.Pkg == nil {
+		return nil
+	}
+	p := e.byPath[fn.Pkg.Pkg.Path()]
+	if p == nil || p.TypesInfo == nil {
+		return nil
+	}
+	var found types.Type
+	for id, obj := range p.TypesInfo.Defs {
+		if obj == nil || id.Name != name || id.Pos() < syn.Pos() || id.Pos() > syn.End() {
+			continue
+		}
+		if v, ok := obj.(*types.Var); ok && !v.IsField() {
+			if found == nil || id.Pos() < 0 {
+				found = v.Type()
+			}
+		}
+	}
+	return found
+}
